@@ -30,20 +30,19 @@ pub open spec fn est_transcript(p: EstablishProof, pk: PublicKey<5>, cid: Scalar
 }
 
 /// The pay relation (15 conjuncts of the property).
-pub open spec fn pay_accept(p: PayProof, cfg: merchant::Config, nonce: Scalar, amt: Scalar, c: Scalar) -> bool {
-    let pk = cfg.signing_keypair.pk;
+pub open spec fn pay_accept(p: PayProof, pk: PublicKey<5>, revp: PedersenParameters<G1Projective, 1>, rp: RangeConstraintParameters, nonce: Scalar, amt: Scalar, c: Scalar) -> bool {
     let zs = srp_z(p.state_proof);
     let zc = srp_z(p.close_state_proof);
     let zo = (*p.old_pay_token_proof.commitment_proof.message_response_scalars)@;
     let zr = (*p.old_revocation_lock_proof.message_response_scalars)@;
     &&& sp_accept(p.old_pay_token_proof, pk, c)
-    &&& schnorr_accept(cfg.revocation_commitment_parameters.h, (*cfg.revocation_commitment_parameters.gs)@,
+    &&& schnorr_accept(revp.h, (*revp.gs)@,
             p.old_revocation_lock_proof.commitment.0, p.old_revocation_lock_proof.scalar_commitment.0,
             p.old_revocation_lock_proof.blinding_factor_response_scalar, zr, c)
     &&& srp_accept(p.state_proof, pk, c)
     &&& srp_accept(p.close_state_proof, pk, c)
-    &&& rc_accept(p.customer_balance_proof, cfg.range_constraint_parameters, c, zs[3])
-    &&& rc_accept(p.merchant_balance_proof, cfg.range_constraint_parameters, c, zs[4])
+    &&& rc_accept(p.customer_balance_proof, rp, c, zs[3])
+    &&& rc_accept(p.merchant_balance_proof, rp, c, zs[4])
     &&& zs[0] == zc[0] && zc[0] == zo[0]
     &&& zc[1] == resp(c, CLOSE_SCALAR, p.close_tag_commitment_scalar)
     &&& zr[0] == zo[2]
@@ -55,8 +54,8 @@ pub open spec fn pay_accept(p: PayProof, cfg: merchant::Config, nonce: Scalar, a
     &&& zs[4] == s_add(zo[4], s_mul(c, amt))
 }
 
-pub open spec fn pay_transcript(p: PayProof, cfg: merchant::Config, nonce: Scalar, ctx: Seq<u8>) -> Seq<Seq<u8>> {
-    (Seq::<Seq<u8>>::empty() + cfg.signing_keypair.pk.items() + cfg.range_constraint_parameters.items()
+pub open spec fn pay_transcript(p: PayProof, pk: PublicKey<5>, rp: RangeConstraintParameters, nonce: Scalar, ctx: Seq<u8>) -> Seq<Seq<u8>> {
+    (Seq::<Seq<u8>>::empty() + pk.items() + rp.items()
         + seq![s_bytes(nonce)] + seq![s_bytes(CLOSE_SCALAR)]
         + p.old_revocation_lock_proof.items() + p.state_proof.items() + p.close_state_proof.items()
         + p.old_pay_token_proof.items() + p.customer_balance_proof.items() + p.merchant_balance_proof.items()
